@@ -23,7 +23,7 @@ from pyvc.contracts import Verifier, CallSpec, LoopSpec, Forall, prove_forall
 from pyvc.objs import PyRaise
 from pyvc.sym import SymInt, mk, mks, cur, branch, And, Or, Not, Implies, Ite
 from pyvc import sym
-from lemmas.disk_wtg import sel, offset, gran_of, GR, N, DSK, KEY
+from lemmas.disk_wtg import sel, offset, gran_of, GR, N, DSK, KEY, WTG
 
 FAT = db.FAT_OFFSET
 DIR = db.DIR_OFFSET
@@ -167,6 +167,10 @@ class DiskAddFile:
             st["dir"] = (base, args["first_granule"], args["last_sector_bytes_used"], Anew)
             p.assume(sel(Anew, base + 13) == args["first_granule"])
             p.assume(And(sel(Anew, base) != 0x00, sel(Anew, base) != 0xFF))
+            # entry layout (disk_writer_fns fn/write_dir_entry): type, ASCII flag, bytes in the last sector
+            p.assume(And(sel(Anew, base + 11) == ftype, sel(Anew, base + 12) == dtype,
+                         sel(Anew, base + 14) * 256 + sel(Anew, base + 15) == args["last_sector_bytes_used"],
+                         sel(Anew, base + 14) >= 0, sel(Anew, base + 15) >= 0, sel(Anew, base + 15) <= 255))
             return None
         v.contract(KEY + "write_dir_entry", CallSpec(apply_dir))
 
@@ -189,6 +193,11 @@ class DiskAddFile:
                          [f_ for f_ in v.facts if f_.name == "alloc"], ("C08",))
             Aold, Anew = stage("wtg", b, lambda q: inregion(q, GA, P, need))
             st["wtg"] = Anew
+            # its post-condition (disk_wtg): the stream header || data || trailer in chain order
+            W = WTG(env, F, pl, bool(postlen), hdr=(L, 0x1234, 0x5678))
+            W.GA, W.DA = GA, DA
+            st["W"] = W
+            v.facts.append(Forall("wtg-stream", 0, total, lambda j, Anew=Anew, W=W: sel(Anew, W.loc(j, 0)) == W.stream(j, pl, 0, L)))
             return None
         v.contract(KEY + "write_to_granules", CallSpec(apply_wtg))
 
@@ -309,6 +318,38 @@ class DiskAddFile:
         # untouched FAT entries
         prove_forall(env, p, key + "::post:other-fat-entries-unchanged", Forall("fatframe", FAT, FAT + 68,
                      lambda q: Implies(Not(marked(q, GA, P, need)), sel(A, q) == sel(A0, q))), facts, ("C08", "C15"), extra_instances=terms)
+        # ---- bridge to the reader: the new entry satisfies list_files' / read_data's pre-conditions (disk_reader), and the entries,
+        # FAT links and granules of the files already on the image are untouched
+        W = st.get("W")
+        if W is not None:
+            def loc(j):
+                return W.loc(j, 0)
+            hs = [f_.instance(base + k_) for f_ in facts if f_.name.startswith("frame-") for k_ in (0, 11, 12, 13)]
+            env.ensure(key + "::bridge:entry-fields",
+                       Implies(And(*hs), And(sel(A, base + 11) == ftype, sel(A, base + 12) == dtype, sel(A, base + 13) == sel(GA, 0),
+                                             sel(A, base) != 0x00, sel(A, base) != 0xFF)), ("C07", "C08"), internal="bridge obligation")
+            inst = lambda j: [j, loc(j), sel(P, gran_of(loc(j))[0])]
+            nhead = pl + postlen
+            p.fresh += 1
+            jj = SymInt(z3.Int("bj!%d" % p.fresh))
+            prove_forall(env, p, key + "::bridge:stream-is-header-data-trailer",
+                         Forall("wtg-stream", 0, total, lambda j: sel(A, loc(j)) == W.stream(j, pl, 0, L)),
+                         [f_ for f_ in facts if f_.name in ("wtg-stream", "frame-fat")], ("C07", "C08"), extra_instances=inst,
+                         hyps=lambda j: [Implies(And(sym.floordiv(j, GR) >= 0, sym.floordiv(j, GR) < need),
+                                                 And(sel(GA, sym.floordiv(j, GR)) >= 0, sel(GA, sym.floordiv(j, GR)) <= 67,
+                                                     sel(P, sel(GA, sym.floordiv(j, GR))) == sym.floordiv(j, GR)))] +
+                         [f_.instance(sym.floordiv(j, GR)) for f_ in facts if f_.name == "alloc"])
+
+            def untouched(q):
+                gq, valid = gran_of(q)
+                other_gran = And(valid, sel(A0, FAT + gq) != 0xFF)
+                other_dir = And(q >= DIR, q < DIR + 72 * 32, Or(q < base, q >= base + 32))
+                other_fat = And(q >= FAT, q < FAT + 68, sel(A0, q) != 0xFF)
+                return Implies(Or(other_gran, other_dir, other_fat), sel(A, q) == sel(A0, q))
+            prove_forall(env, p, key + "::bridge:existing-files-untouched", Forall("frame", 0, N, untouched), facts, ("C07", "C08", "C09"),
+                         extra_instances=lambda q: [q, sel(P, q - FAT), sel(P, gran_of(q)[0])],
+                         hyps=lambda q: [f_.instance(sel(P, gran_of(q)[0])) for f_ in facts if f_.name == "alloc"] +
+                                        [f_.instance(sel(P, q - FAT)) for f_ in facts if f_.name == "alloc"])
         prove_forall(env, p, key + "::post:dir-slot-was-free", Forall("slotfree", base, base + 1,
                      lambda q: Or(sel(A0, q) == 0x00, sel(A0, q) == 0xFF)), [f_ for f_ in facts if f_.name == "loopframe"], ("C15", "C08"))
 
